@@ -345,6 +345,7 @@ fn run_one(plan: &Plan, sched: &[(i64, String)], path: &std::path::Path, random:
         }
     }
     let mut low = 0i64;
+    let mut probed: HashSet<i64> = HashSet::new();
     loop {
         crate::tick();
         // next thread to step
@@ -381,6 +382,28 @@ fn run_one(plan: &Plan, sched: &[(i64, String)], path: &std::path::Path, random:
         };
         let target: String = if rng.is_some() || idx == 0 { String::new() } else { sched[idx - 1].1.clone() };
         steps += 1;
+        if rng.is_none() {
+            // negative probe of the writer lock: the writer that the model lets in next is sent
+            // into file.lock() while another write transaction is still open.  It must block
+            // there holding nothing, i.e. everybody else keeps making progress (C09).
+            let wids: Vec<i64> = plan.writers.iter().map(|(w, _)| *w).collect();
+            let g = c.st.lock().unwrap();
+            let holder = wids.iter().cloned().find(|w| {
+                matches!(g.last.get(w), Some(n) if *n != "h:start" && *n != "h:tx_done") && !g.finished.contains(w)
+            });
+            drop(g);
+            let next_locker = sched[idx - 1..].iter().find(|(t, n)| n == "tx:locked" && wids.contains(t)).map(|(t, _)| *t);
+            if let (Some(h), Some(nl)) = (holder, next_locker) {
+                let at_start = c.st.lock().unwrap().parked.get(&nl).cloned() == Some("h:start");
+                if h != nl && at_start && !probed.contains(&nl) {
+                    probed.insert(nl);
+                    let mut g = c.st.lock().unwrap();
+                    g.granted.insert(nl);
+                    g.parked.remove(&nl);
+                    c.cv.notify_all();
+                }
+            }
+        }
         let parked_at = c.st.lock().unwrap().parked.get(&tid).cloned();
         if let Some(name) = parked_at {
             if !target.is_empty() && name == target {
